@@ -57,7 +57,7 @@ func supervise(args []string) int {
 			continue
 		}
 		seen[key] = true
-		replay := map[string]any{"run": c.Run, "ops": c.Ops}
+		replay := slotReplay(c)
 		art := map[string]any{"property": id, "tier": string(tier), "msg": "the exploring process died while this history was in flight", "replay": replay}
 		ab, _ := json.MarshalIndent(art, "", " ")
 		h := sha256.Sum256(ab)
@@ -74,12 +74,47 @@ func supervise(args []string) int {
 			continue
 		case rc == 1:
 			// the history fails in an ordinary way when run alone
-			msg := fmt.Sprintf("[%s] history %v (in flight when the exploring process died with exit %d): %s", c.Run, c.Ops, code, lastLines(out.String(), 3))
+			msg := fmt.Sprintf("[%s] case %s (in flight when the exploring process died with exit %d): %s", c.Run, caseText(c), code, lastLines(out.String(), 3))
 			return report(id, tier, sub, msg, replay, p)
 		default:
-			msg := fmt.Sprintf("[%s] history %v kills the process that executes it (exit %d, reproduced in a process of its own): %s", c.Run, c.Ops, rc, fatalSummary(rtail))
+			msg := fmt.Sprintf("[%s] case %s kills the process that executes it (exit %d, reproduced in a process of its own): %s", c.Run, caseText(c), rc, fatalSummary(rtail))
 			return report(id, tier, sub, msg, replay, p)
 		}
+	}
+	// Second pass: the death may need a particular timing inside the code under test (goroutines it starts
+	// itself). Each candidate is replayed many times in one process.
+	for _, c := range cands {
+		replay := slotReplay(c)
+		art := map[string]any{"property": id, "tier": string(tier), "msg": "the exploring process died while this history was in flight (timing dependent: reproduced by repetition)", "replay": replay, "repeat": 400}
+		ab, _ := json.MarshalIndent(art, "", " ")
+		h := sha256.Sum256(ab)
+		p := filepath.Join(rdir, fmt.Sprintf("%s-%s.json", id, hex.EncodeToString(h[:6])))
+		if err := os.WriteFile(p, ab, 0o644); err != nil {
+			continue
+		}
+		_ = rt.CreateSlotFile(slots)
+		var out bytes.Buffer
+		os.Setenv("VERIF_REPLAY_REPEAT", "400")
+		rc, rtail := runChild([]string{id, "--replay", p}, slots, &out, 5*time.Minute)
+		os.Unsetenv("VERIF_REPLAY_REPEAT")
+		if rc == 0 {
+			_ = os.Remove(p)
+			continue
+		}
+		if rc == 1 {
+			msg := fmt.Sprintf("[%s] history %v (in flight when the exploring process died with exit %d) fails when repeated (timing dependent; replay with VERIF_REPLAY_REPEAT=400): %s", c.Run, c.Ops, code, lastLines(out.String(), 3))
+			return report(id, tier, sub, msg, replay, p)
+		}
+		msg := fmt.Sprintf("[%s] history %v kills the process that executes it when repeated (exit %d; timing dependent, replay with VERIF_REPLAY_REPEAT=400): %s", c.Run, c.Ops, rc, fatalSummary(rtail))
+		return report(id, tier, sub, msg, replay, p)
+	}
+	// Still nothing. A panic or runtime abort on a goroutine that the code under test started itself (no harness
+	// frame on its stack) is the code under test's own failure whatever history triggered it.
+	if fg := faultingGoroutine(tail); strings.Contains(fg, "github.com/0chain/common/") && !strings.Contains(fg, "verifmc/") && !strings.Contains(tail, "fatal error: concurrent map") {
+		p := filepath.Join(rdir, fmt.Sprintf("%s-library-goroutine-crash.txt", id))
+		_ = os.WriteFile(p, []byte(tail), 0o644)
+		msg := fmt.Sprintf("a goroutine started by the code under test crashed the process (no harness frame on its stack; %d histories were in flight, none reproduces it alone or repeated): %s", len(cands), fatalSummary(fg))
+		return report(id, tier, sub, msg, map[string]any{"stack_file": p}, p)
 	}
 	// No single history kills its process. The workers of an exploration never share an object of the code
 	// under test (each history runs on instances of its own), so a runtime abort about concurrent access
@@ -109,6 +144,9 @@ func supervise(args []string) int {
 // faultingGoroutine returns the fatal line and the stack of the first goroutine printed after it.
 func faultingGoroutine(stderr string) string {
 	i := strings.Index(stderr, "fatal error:")
+	if j := strings.Index(stderr, "panic: "); j >= 0 && (i < 0 || j < i) {
+		i = j
+	}
 	if i < 0 {
 		return ""
 	}
@@ -122,6 +160,24 @@ func faultingGoroutine(stderr string) string {
 		return rest
 	}
 	return rest[:j+1+k]
+}
+
+// slotReplay turns an in-flight record into the replay map of a violation artefact.
+func slotReplay(c rt.SlotRec) map[string]any {
+	if c.Run == rt.JSONRun {
+		var m map[string]any
+		if json.Unmarshal(c.Ops, &m) == nil {
+			return m
+		}
+	}
+	return map[string]any{"run": c.Run, "ops": c.Ops}
+}
+
+func caseText(c rt.SlotRec) string {
+	if c.Run == rt.JSONRun {
+		return string(c.Ops)
+	}
+	return fmt.Sprint(c.Ops)
 }
 
 func report(id string, tier rt.Tier, sub bool, msg string, replay any, path string) int {
